@@ -73,6 +73,8 @@ def gen_case(rng):
             if updater == "table" and rng.random() < 0.5:
                 table[new] = [rng.randrange(10 ** 9) for _ in range(r + 2)]
         case["alias"] = alias
+    if rng.random() < 0.25:
+        case["name_subclass"] = True     # names also given as a str subclass with its own __str__
     if rng.random() < 0.3:
         case["tt_seed"] = rng.getrandbits(48)      # also run the two-thread layer
     if updater == "table" and rng.random() < 0.3:
@@ -158,6 +160,44 @@ def two_threads(case):
                     "got {stream: (seed, single-threaded seed)} = %s (outcome %s, "
                     "single-threaded %s)" % (names, r, det.n_switch, who, diff, res.get(who),
                                              exp_out))
+    return None
+
+
+class StreamName(str):
+    """A stream name that is a str (equal to, hashing like and iterating like its
+    text) but prints differently - what a (str, Enum) member does."""
+
+    def __str__(self):
+        return "StreamName." + str.upper(self)
+
+    __repr__ = __str__
+
+    def __format__(self, spec):
+        return format(self.__str__(), spec)
+
+
+def name_forms(case):
+    """The same experiment with its stream names given as plain str and as a str
+    subclass with its own __str__: the seeds may only depend on the name."""
+    if not case.get("name_subclass"):
+        return None
+    names = case["names"]
+    r = case["r"]
+    out = []
+    for wrap in (str, StreamName):
+        streams = {wrap(n): MersenneTwister(case["seeds"][n]) for n in names}
+        table = c13child.make_table(case, list(case["table"].items()))
+        upd = SimpleStreamUpdater() if case["updater"] == "simple" else StreamSeedUpdater(table)
+        try:
+            upd.update_seeds(streams, r)
+            out.append({str.__str__(k): s.seed() for k, s in streams.items()})
+        except (ValueError, TypeError) as e:
+            out.append("refused:" + type(e).__name__)
+    if out[0] != out[1]:
+        return ("seed-depends-on-name-object", "the same streams %s, replication %d: with plain "
+                "str names the seeds are %s, with names of a str subclass that overrides "
+                "__str__ (equal, same hash, same characters) they are %s"
+                % (names, r, out[0], out[1]))
     return None
 
 
@@ -295,6 +335,8 @@ def execute(case):
                     fail_case = {"cases": [c], "hashseeds": [case["hashseeds"][0], case["hashseeds"][k]]}
         if finding is None:
             f = in_process(c)
+            if f is None:
+                f = name_forms(c)
             if f is None and c.get("tt_seed") is not None:
                 f = two_threads(c)
                 cnt["layer:two_threads"] = cnt.get("layer:two_threads", 0) + 1
